@@ -418,22 +418,29 @@ class SockPort:
     reached the reader under test (so that the segmentation is what was asked
     for, as far as the kernel allows)."""
 
-    def __init__(self, writer: asyncio.StreamWriter, arrived: Callable[[], int], eof_seen: Callable[[], bool]) -> None:
+    def __init__(self, writer: asyncio.StreamWriter, arrived: Callable[[], int], eof_seen: Callable[[], bool],
+                 gone: Callable[[], bool] = lambda: False) -> None:
         self.w = writer
         self.sent = 0
         self.arrived = arrived
         self.eof_seen = eof_seen
+        self.gone = gone  # the reader under test has given up the connection: nothing more can arrive
 
     async def _until(self, cond: Callable[[], bool], what: str) -> None:
         for _ in range(10000):
-            if cond():
+            if cond() or self.gone():
                 return
             await asyncio.sleep(0.002)
         raise Machinery(f"real socket: {what} did not happen within 20 s")
 
     async def feed(self, data: bytes) -> None:
-        self.w.write(data)
-        await self.w.drain()
+        if self.gone():
+            return
+        try:
+            self.w.write(data)
+            await self.w.drain()
+        except ConnectionError:
+            return
         self.sent += len(data)
         await self._until(lambda: self.arrived() >= self.sent, "arrival of a segment")
 
@@ -442,10 +449,13 @@ class SockPort:
             await asyncio.sleep(0)
 
     async def eof(self) -> None:
-        if self.w.can_write_eof():
-            self.w.write_eof()
-        else:
-            self.w.close()
+        try:
+            if self.w.can_write_eof():
+                self.w.write_eof()
+            else:
+                self.w.close()
+        except (ConnectionError, OSError):
+            return
         await self._until(self.eof_seen, "end-of-stream at the reader")
 
 
@@ -589,7 +599,7 @@ async def real_server_run(kind: str, contents: list[bytes], chunks: list[bytes],
 
     dt = asyncio.ensure_future(drain_replies())
     try:
-        port = SockPort(pw, lambda: got[0], lambda: eof[0])
+        port = SockPort(pw, lambda: got[0], lambda: eof[0], gone=finished.is_set)
         await asyncio.wait_for(run_plan(_SilentPort(port), rec, stream, plan, has_timeouts=False, scale=REAL_SCALE),
                                60.0)
         if any(op[0] == "E" for op in plan):
